@@ -56,6 +56,17 @@ DriftOf(t, r) ==
               <<M0, 0, 0, "">>, t.runs[r].calls)
   IN IF res[3] # 0 THEN F("impl." \o res[4], r, res[3]) ELSE <<>>
 
+\* growth: end_line / expected_checksum of every observed readout against the implementation-shaped DataReadout spec (DRIFT only)
+AccDrift(t, r) ==
+  LET outs == Outs(t.runs[r])
+      bad == {k \in 1..Len(outs) :
+                LET o == outs[k].o x == outs[k].acc e == ExpectedImpl(o) IN
+                x.seen /\ EndPos(o) > 0 /\
+                ( (e[1] /\ x.exp # e[2])
+                  \/ (IsAscii(EndRaw(o)) /\ (x.endraised \/ x.end # EndLineImpl(o)))
+                  \/ (~IsAscii(EndRaw(o)) /\ ~x.endraised) )}
+  IN IF bad # {} THEN F("impl.accessors", r, First(bad)) ELSE <<>>
+
 Verdict(t) ==
   LET rs == 1..Len(t.runs)
       perRun(Op(_, _)) == FoldLeft(LAMBDA a, r : a \o Op(t, r), <<>>, [r \in rs |-> r])
@@ -64,7 +75,7 @@ Verdict(t) ==
                ELSE IF t.mode = "resync" THEN (IF ResyncShape(t.plan) /\ PlanFed(t) THEN perRun(C16Fails) ELSE F("plan", 0, 0))
                ELSE <<>>
       fails == base \o extra
-      drift == IF t.nodrift \/ t.mode = "direct" THEN <<>> ELSE perRun(DriftOf)
+      drift == (IF t.nodrift \/ t.mode = "direct" THEN <<>> ELSE perRun(DriftOf)) \o perRun(AccDrift)
   IN [id |-> t.id, ok |-> fails = <<>>, fails |-> fails, drift |-> drift]
 
 Traces == ndJsonDeserialize(IOEnv.TRACE_FILE)
